@@ -6798,10 +6798,18 @@ def subn(
     total_count = 0
     skip_sub = False
     dirty = set()  # {AST, ...}
-    gen = self.search(pat, nested, ctx=ctx, on=on, self_=self_, recurse=recurse, scope=scope, back=back, asts=asts)
+    gens = [self.search(pat, nested, ctx=ctx, on=on, self_=self_, recurse=recurse, scope=scope, back=back, asts=asts)]  # stack, the walk does not continue into statements put as a slice so those get their own search which is pushed here
 
-    for m in gen:
+    while gens:
+        if (m := next(gen := gens[-1], None)) is None:
+            gens.pop()
+
+            continue
+
         matched = m.matched  # will be FST node
+        walked = matched  # the node the walk is at, if it is still alive after the substitution then the walk continues into it (as allowed by `nested` and `recurse`)
+        replaced = None
+        nput = 1  # number of statements which wound up where `walked` was
 
         if matched.a in dirty:
             continue
@@ -7016,6 +7024,7 @@ def subn(
             if matched.a.__class__ in ASTS_LEAF_STMT:  # if putting potentially multiple statements to one then make it a slice replace
                 if repl_.a.__class__ is Module:
                     one = False
+                    nput += len(repl_.a.body) - 1
 
             replaced = matched.replace(repl_, one=one, **options)
 
@@ -7034,6 +7043,17 @@ def subn(
                 loop = loop_start
 
             break
+
+        if (nested
+            and on == 'enter'  # on 'leave' the children were walked before the substitution
+            and not walked.a  # replaced as a slice so the walk sees a deleted node and does not continue into what was put
+            and replaced  # first of the statements put, if any
+            and (parent := replaced.parent)
+        ):
+            field, idx = replaced.pfield
+
+            gens.append(self.search(pat, nested, ctx=ctx, on=on, recurse=recurse, scope=scope, back=back,
+                                    asts=getattr(parent.a, field)[idx : idx + nput]))  # template nodes and the copy of the matched node itself are in `dirty`
 
         if not skip_sub:
             if not (count := count - 1):
